@@ -29,6 +29,7 @@ struct Workload {
   int topo = 0;
   int n = 8;  // size parameter (about the number of faces / points / frames)
   uint64_t gseed = 1;
+  int jit = 1;  // 0 = exactly regular geometry (compresses to almost nothing)
   std::vector<AttDesc> atts;  // atts[0] is POSITION
   int meta = 0;               // 0 none, 1 geometry metadata, 2 + per-attribute
   // Options (-1 = leave at default).
